@@ -569,6 +569,14 @@ func (g *Gen) genC18(n int) error {
 			g.st("case")
 			continue
 		}
+		if g.vectors && i%3 == 1 {
+			// the channel is closed from inside every engine call of a vector merge in turn
+			g.emit("vreset")
+			g.engFaultMergeCase(true)
+			g.st("cancel.engine")
+			g.st("case")
+			continue
+		}
 		s1, _ := g.smallSegForFaults()
 		s2, _ := g.smallSegForFaults()
 		mf := g.fresh("f")
